@@ -1,4 +1,5 @@
 import Secp.Proofs.Bip32
+import Secp.Props.C03
 /-
   Props/C12 — BIP32 child derivation matches the specification and commutes with neutering.
   Model: `Secp.Model.childWithIL`, `deriveWithIL`, `ExtKey.neuter`, `fromSeed` (hand-written mirrors of
@@ -55,5 +56,12 @@ theorem neuter_commutes (hp : PointSpec) (O : Oracles) (k c : ExtKey) (i il : Na
     (h : childWithIL O k i = .ok (il, c)) (hne : beNat c.keyData ≠ 0) :
     childWithIL O k.neuter i = .ok (il, c.neuter) :=
   Secp.Proofs.Bip32.neuter_commutes hp O k c i il hk hi h hne
+
+/-! ### unconditional form -/
+
+theorem neuter_commutes_unconditional (O : Oracles) (k c : ExtKey) (i il : Nat) (hk : PrivKeyOK k) (hi : i < 2^31)
+    (h : childWithIL O k i = .ok (il, c)) (hne : beNat c.keyData ≠ 0) :
+    childWithIL O k.neuter i = .ok (il, c.neuter) :=
+  neuter_commutes Secp.Props.C03.pointSpec O k c i il hk hi h hne
 
 end Secp.Props.C12
